@@ -145,7 +145,7 @@ fn deep_chains(i: u64, st: &mut Stats) -> CaseResult {
         let (it, used) = vcore::item::parse(&bytes).map_err(|e| vcore::Fail::new("harness-bug", format!("chain {} ill-formed: {:?}", short_hex(&bytes), e)))?;
         ensure!(used == bytes.len() && it.render() == want, "harness-bug", "chain notation {:?} differs from the tree renderer {:?}", want, it.render());
     }
-    let got = render_bounded(&bytes)?;
+    let got = crate::total::on_default_stack(|| render_bounded(&bytes))?;
     if got != want {
         let k = got.bytes().zip(want.bytes()).position(|(a, b)| a != b).unwrap_or(got.len().min(want.len()));
         return Err(vcore::Fail::new("wrong-rendering", format!("display of a chain of kind {} and depth {} ({} bytes) differs from the documented notation at offset {} of {}: got ..{:?}.., expected ..{:?}..", kind, depth, bytes.len(), k, want.len(), &got[k.saturating_sub(10) .. (k + 30).min(got.len())], &want[k.saturating_sub(10) .. (k + 30).min(want.len())])))
@@ -161,7 +161,7 @@ fn raw_input(g: &mut Gen, st: &mut Stats) -> CaseResult {
     st.eval();
     let _ = g.byte();
     let input = g.rest().to_vec();
-    let _ = render_bounded(&input);
+    let _ = crate::total::on_default_stack(|| render_bounded(&input));
     Ok(())
 }
 
